@@ -174,7 +174,7 @@ Qed.
 
 Lemma Inv_step : forall up0 s e, Inv up0 s -> Inv up0 (step s e).
 Proof.
-  intros up0 s e I. destruct e as [o| |f|a f|b|r]; cbn [step].
+  intros up0 s e I. destruct e as [o| |f|a f|b|r|f]; cbn [step].
   - destruct (dial_enabled s) eqn:E; auto.
     unfold dial_enabled in E. apply andb_true_iff in E. destruct E as [E1 E2].
     apply negb_true_iff in E1.
@@ -213,6 +213,19 @@ Proof.
   - apply Inv_set_sdk; auto.
   - destruct (try_send (fun _ => send_class (lcl s) r)) as [n c].
     apply Inv_app; cbn; auto.
+  - destruct (stopped s) eqn:E.
+    + apply Inv_close_locked; auto.
+    + destruct (connected s) eqn:C.
+      * cbn [connected app set_stopped]. rewrite C.
+        destruct I as [A B C' D]. unfold close_conn, normal_reset.
+        constructor; fields; auto; hist; auto; try discriminate.
+        now rewrite !app_nil_r.
+      * cbn [connected app set_stopped]. rewrite C.
+        assert (I1 : Inv up0 (app (set_stopped s) LStop)).
+        { apply Inv_app; cbn; auto. apply Inv_set_stopped; auto. }
+        apply Inv_close_locked.
+        cbn [in_slow round_fails app set_stopped].
+        destruct (in_slow s || Nat.eqb (round_fails s) 0); auto using Inv_down_block.
 Qed.
 
 Lemma Inv_run : forall up0 evs s, Inv up0 s -> Inv up0 (run s evs).
@@ -251,7 +264,7 @@ Proof.
   intros s e He [A B C D].
   destruct s as [up a st co rf sl lc sf lg]. fields. subst sf.
   assert (R : rf = 0 \/ rf = 1) by lia. clear B.
-  destruct e as [o| |f|a' f|b|r].
+  destruct e as [o| |f|a' f|b|r|f].
   - destruct st; [constructor; cbn; auto; lia|].
     destruct co; [constructor; cbn; auto; lia|].
     destruct o, up, sl, lc, R; subst rf; constructor; fin2.
@@ -263,6 +276,7 @@ Proof.
   - destruct b; try discriminate. constructor; cbn; auto. lia.
   - cbn [step]. fields. destruct (try_send (fun _ => send_class lc r)) as [n c].
     constructor; brute; cbn; intros; hist; auto; try lia.
+  - destruct f, st, co, up, sl, lc, R; subst rf; constructor; fin2.
 Qed.
 
 Lemma Inv2_run : forall evs s, sdk_ok evs = true -> Inv2 s -> Inv2 (run s evs).
@@ -276,7 +290,7 @@ Qed.
 Lemma stopped_step : forall s e, is_stop e = false -> stopped (step s e) = stopped s.
 Proof.
   intros s e H. destruct s as [up a st co rf sl lc sf lg].
-  destruct e as [o| |f|a' f|b|r]; try discriminate.
+  destruct e as [o| |f|a' f|b|r|f]; try discriminate.
   - destruct o, st, co, up, sf, lc, rf as [|[|rf]]; reflexivity.
   - destruct st, co, up, sf, rf as [|[|rf]]; reflexivity.
   - cbn [step]. fields. destruct (N.eqb a' a); destruct co, lc, f; reflexivity.
@@ -294,7 +308,7 @@ Lemma stopped_stays : forall s e, stopped s = true ->
   stopped (step s e) = true /\ dials (log (step s e)) = dials (log s).
 Proof.
   intros s e H. destruct s as [up a st co rf sl lc sf lg]. fields. subst st.
-  destruct e as [o| |f|a' f|b|r].
+  destruct e as [o| |f|a' f|b|r|f].
   - split; reflexivity.
   - destruct co; [|split; reflexivity].
     destruct up, sf, rf as [|[|rf]]; split; try reflexivity; brute; cbn; hist;
@@ -305,6 +319,7 @@ Proof.
   - split; reflexivity.
   - cbn [step]. fields. destruct (try_send (fun _ => send_class lc r)).
     split; try reflexivity. fields. hist. now rewrite app_nil_r.
+  - destruct lc, f; split; reflexivity.
 Qed.
 
 Lemma stop_no_dial : forall s f, dials (log (step s (Stop f))) = dials (log s).
@@ -356,26 +371,28 @@ Lemma connected_step : forall s e, is_established e = false -> connected s = fal
   connected (step s e) = false.
 Proof.
   intros s e H C. destruct s as [up a st co rf sl lc sf lg]. fields. subst co.
-  destruct e as [o| |f|a' f|b|r].
+  destruct e as [o| |f|a' f|b|r|f].
   - destruct o; try discriminate; destruct st, up, sf, lc, rf as [|[|rf]]; reflexivity.
   - reflexivity.
   - destruct st, up, sf, sl, lc, f; reflexivity.
   - cbn [step]. fields. destruct (N.eqb a' a); destruct lc, f; reflexivity.
   - reflexivity.
   - cbn [step]. fields. destruct (try_send (fun _ => send_class lc r)). reflexivity.
+  - destruct st, up, sf, sl, lc, f, rf as [|rf]; reflexivity.
 Qed.
 
 Lemma cur_addr_step : forall s e,
   cur_addr (step s e) = match e with UpdateAddr a _ => a | _ => cur_addr s end.
 Proof.
   intros. destruct s as [up a st co rf sl lc sf lg].
-  destruct e as [o| |f|a' f|b|r].
+  destruct e as [o| |f|a' f|b|r|f].
   - destruct o, st, co, up, sf, lc, rf as [|[|rf]]; reflexivity.
   - destruct st, co, up, sf, rf as [|[|rf]]; reflexivity.
   - destruct st, co, up, sf, sl, lc, f; reflexivity.
   - cbn [step]. fields. destruct (N.eqb a' a); destruct co, lc, f; reflexivity.
   - reflexivity.
   - cbn [step]. fields. destruct (try_send (fun _ => send_class lc r)). reflexivity.
+  - destruct st, co, up, sf, sl, lc, f, rf as [|rf]; reflexivity.
 Qed.
 
 Lemma cur_addr_run : forall evs s, cur_addr (run s evs) = last_addr (cur_addr s) evs.
@@ -425,7 +442,7 @@ Lemma step_log_extends : forall s e, exists l, log (step s e) = log s ++ l /\
   Forall send_entry_ok l.
 Proof.
   intros. destruct s as [up a st co rf sl lc sf lg].
-  destruct e as [o| |f|a' f|b|r].
+  destruct e as [o| |f|a' f|b|r|f].
   - destruct o, st, co, up, sf, lc, rf as [|[|rf]]; brute; cbn;
       rewrite <- ?app_assoc; cbn [List.app];
       (eexists; split; [try reflexivity; symmetry; apply app_nil_r|repeat constructor]).
@@ -444,6 +461,9 @@ Proof.
     split. { destruct (try_send (fun _ => send_class lc r)); reflexivity. }
     constructor; [|constructor].
     destruct lc, r; cbv; repeat split; auto; try lia; intros; try lia.
+  - destruct st, co, up, sf, sl, lc, f, rf as [|rf]; brute; cbn;
+      rewrite <- ?app_assoc; cbn [List.app];
+      (eexists; split; [try reflexivity; symmetry; apply app_nil_r|repeat constructor]).
 Qed.
 
 Lemma sends_ok_run : forall evs s, Forall send_entry_ok (log s) ->
@@ -546,4 +566,38 @@ Proof.
   intros up0 a0 evs n m c H.
   pose proof (sends_ok_run evs (init up0 a0) (Forall_nil _)) as F.
   rewrite Forall_forall in F. apply (F _ H).
+Qed.
+
+(* ---------- the second Stop event ---------- *)
+Lemma stopped_after_stop_at_entry : forall s f, stopped (step s (StopAtEntry f)) = true.
+Proof.
+  intros. destruct s as [up a st co rf sl lc sf lg].
+  destruct st, co, up, sf, sl, lc, f, rf as [|rf]; reflexivity.
+Qed.
+
+Lemma stop_at_entry_no_dial : forall s f, dials (log (step s (StopAtEntry f))) = dials (log s).
+Proof.
+  intros. destruct s as [up a st co rf sl lc sf lg].
+  destruct st, co, up, sf, sl, lc, f, rf as [|rf]; brute; cbn; hist; now rewrite ?app_nil_r.
+Qed.
+
+Lemma no_dial_after_stop_at_entry : forall up0 a0 evs1 f evs2,
+  dials (log (run (init up0 a0) (evs1 ++ StopAtEntry f :: evs2))) =
+  dials (log (run (init up0 a0) evs1)).
+Proof.
+  intros. rewrite run_app. cbn [run fold_left].
+  destruct (stopped_run evs2 (step (run (init up0 a0) evs1) (StopAtEntry f))
+                        (stopped_after_stop_at_entry _ f)) as [_ H].
+  unfold run in *. rewrite H. apply stop_at_entry_no_dial.
+Qed.
+
+(* the two Stop events differ only when the supervisor is about to dial *)
+Lemma stop_events_coincide : forall s f,
+  (stopped s = true \/ connected s = true \/ in_slow s = true \/ 1 <= round_fails s) ->
+  step s (StopAtEntry f) = step s (Stop f).
+Proof.
+  intros s f H. destruct s as [up a st co rf sl lc sf lg]. cbn in H.
+  destruct st; [reflexivity|]. destruct co; [reflexivity|].
+  destruct sl; [reflexivity|]. destruct rf as [|rf]; [|reflexivity].
+  destruct H as [H|[H|[H|H]]]; try discriminate; lia.
 Qed.
